@@ -30,8 +30,11 @@
 //!         | f32 ("v": 8 hex digits) | error ("v": [hex text, ...] = Display of the error and of its sources)
 //!         | empty (tracing::field::Empty) | unset (the pair carries no value)
 //!         | gate1 | gate2 ("v": hex text; Debug values, only inside a race op, see there)
+//!         | panic ("v": hex text; a Debug impl that writes the text and then PANICS; the op must carry "caught": true, the
+//!           harness then runs it under catch_unwind and goes on with the next operation)
 //! output = {"id":N,"tid":hex(Debug of the thread id),"out":[[hex chunk,...] per op, in op order],
 //!           "race":[[overlapped, gate1_timed_out, thread2_started] per race op],"panic":null|hex}
+//!          "caught":[op index, ...] = the operations that unwound and were caught,
 //!          (one chunk per `write` call on the MakeWriter's writer; the fmt layer hands over one record per call)
 //! Built twice by the driver: plain, and with the package feature `log` = tracing-subscriber's (default) `tracing-log`
 //! feature (bin h_json_log); the first output line says which.
@@ -112,6 +115,13 @@ struct DebugText(String);
 impl fmt::Debug for DebugText {
     fn fmt(&self, f: &mut fmt::Formatter<'_>) -> fmt::Result {
         f.write_str(&self.0)
+    }
+}
+struct PanicText(String);
+impl fmt::Debug for PanicText {
+    fn fmt(&self, f: &mut fmt::Formatter<'_>) -> fmt::Result {
+        let _ = f.write_str(&self.0);
+        panic!("Debug impl of a recorded value panicked (on purpose)");
     }
 }
 struct DisplayText(String);
@@ -233,6 +243,7 @@ fn make_val(v: &J) -> Val {
             let e: Box<dyn std::error::Error + 'static> = e.expect("non-empty error chain");
             Box::new(e)
         }
+        "panic" => Box::new(tracing::field::debug(PanicText(hstr(x)))),
         "gate1" | "gate2" => {
             let ctl = RACE_CTL.with(|c| c.borrow().clone()).expect("gate value outside a race op");
             Box::new(tracing::field::debug(Gate { text: hstr(x), ctl, which: if t == "gate1" { 1 } else { 2 }, once: AtomicBool::new(false) }))
@@ -349,6 +360,7 @@ struct Out {
     events: Vec<Vec<String>>,
     tid: String,
     race: Vec<(bool, bool, bool)>,
+    caught: Vec<usize>,
 }
 
 fn run_ops(case: &J, rec: &Rec, out: &Arc<Mutex<Out>>, disp: &Dispatch) {
@@ -356,8 +368,28 @@ fn run_ops(case: &J, rec: &Rec, out: &Arc<Mutex<Out>>, disp: &Dispatch) {
     let metas: Vec<&'static Metadata<'static>> = case["callsites"].as_array().unwrap().iter().map(make_meta).collect();
     let mut spans: std::collections::BTreeMap<i64, Span> = Default::default();
     let parent_id = |spans: &std::collections::BTreeMap<i64, Span>, p: i64| -> Option<Id> { spans.get(&p).and_then(|s| s.id()) };
-    for op in case["ops"].as_array().unwrap() {
+    for (op_index, op) in case["ops"].as_array().unwrap().iter().enumerate() {
         rec.0.lock().unwrap().clear();
+        if op["caught"].as_bool().unwrap_or(false) {
+            // an operation expected to unwind (a panicking Debug impl): caught here, the history goes on
+            let kind = op["op"].as_str().unwrap();
+            let r = std::panic::catch_unwind(std::panic::AssertUnwindSafe(|| match kind {
+                "record" => {
+                    let s = &spans[&op["id"].as_i64().unwrap()];
+                    let meta = s.metadata().expect("span metadata");
+                    with_values(meta, &op["vals"], &mut |vs| {
+                        s.record_all(vs);
+                    });
+                }
+                other => panic!("op {} cannot be run caught", other),
+            }));
+            if r.is_err() {
+                out.lock().unwrap().caught.push(op_index);
+            }
+            let chunks: Vec<String> = rec.0.lock().unwrap().drain(..).map(|c| hex(&c)).collect();
+            out.lock().unwrap().events.push(chunks);
+            continue;
+        }
         match op["op"].as_str().unwrap() {
             "span" => {
                 let meta = metas[op["cs"].as_u64().unwrap() as usize];
@@ -518,7 +550,7 @@ fn run_case(case: &J) -> String {
     } else {
         Dispatch::new(tracing_subscriber::registry().with(layer.with_timer(FixedTime(hstr(&o["ts"])))))
     };
-    let out = Arc::new(Mutex::new(Out { events: vec![], tid: String::new(), race: vec![] }));
+    let out = Arc::new(Mutex::new(Out { events: vec![], tid: String::new(), race: vec![], caught: vec![] }));
     let mut builder = std::thread::Builder::new();
     if !case["thread"].is_null() {
         builder = builder.name(hstr(&case["thread"]));
@@ -553,6 +585,8 @@ fn run_case(case: &J) -> String {
     }
     s.push_str("],\"race\":[");
     s.push_str(&o.race.iter().map(|(a, b, c)| format!("[{},{},{}]", a, b, c)).collect::<Vec<_>>().join(","));
+    s.push_str("],\"caught\":[");
+    s.push_str(&o.caught.iter().map(|k| k.to_string()).collect::<Vec<_>>().join(","));
     s.push_str("],\"pending\":[");
     s.push_str(&pending.iter().map(|c| format!("\"{}\"", c)).collect::<Vec<_>>().join(","));
     s.push_str("],\"panic\":");
@@ -576,9 +610,10 @@ fn main() {
     let mut w = io::BufWriter::new(stdout.lock());
     writeln!(
         w,
-        "{{\"build\":\"{}\",\"log\":{}}}",
+        "{{\"build\":\"{}\",\"log\":{},\"pl\":{}}}",
         if cfg!(debug_assertions) { "debug" } else { "release" },
-        cfg!(feature = "log")
+        cfg!(feature = "log"),
+        cfg!(feature = "pl")
     )
     .unwrap();
     // `--parallel`: all cases at once (the race stream: every case spends a bounded wait, they overlap)
